@@ -133,6 +133,55 @@ func (e *Exec) intrinsic(name string, fn *types.Func, recvExpr ast.Expr, call *a
 	case "(*sync.Mutex).Unlock", "(*sync.RWMutex).Unlock", "(*sync.RWMutex).RUnlock":
 		e.unlock(recvExpr, c, call)
 		return nil, true
+	case "(*sync.WaitGroup).Add", "(*sync.WaitGroup).Done", "(*sync.WaitGroup).Wait",
+		"(*sync/atomic.Int64).Add", "(*sync/atomic.Int64).Load", "(*sync/atomic.Int64).Store",
+		"(*sync/atomic.Int32).Add", "(*sync/atomic.Int32).Load", "(*sync/atomic.Int32).Store":
+		owner, fld := e.syncMapOwner(recvExpr, c)
+		a := e.evalArgs(call.Args, c)
+		key := "OP!" + fld
+		at := &Type{K: KGMap, Key: tInt, Elem: tInt}
+		arr := e.get(c.st, key, at)
+		cur := fmt.Sprintf("(select %s %s)", arr.S, owner.S)
+		switch fn.Name() {
+		case "Add":
+			nv := fmt.Sprintf("(+ %s %s)", cur, a[0].S)
+			if strings.Contains(name, "WaitGroup") {
+				e.safetyAssert(c, "waitgroup-negative", fmt.Sprintf("(>= %s 0)", nv), exprText(call), call)
+			}
+			e.set(c.st, key, Term{fmt.Sprintf("(store %s %s %s)", arr.S, owner.S, nv), at})
+			if strings.Contains(name, "atomic") {
+				return []Term{{nv, tInt64}}, true
+			}
+			return nil, true
+		case "Done":
+			// a negative counter panics
+			e.safetyAssert(c, "waitgroup-negative", fmt.Sprintf("(>= %s 1)", cur), exprText(call), call)
+			e.set(c.st, key, Term{fmt.Sprintf("(store %s %s (- %s 1))", arr.S, owner.S, cur), at})
+			return nil, true
+		case "Wait":
+			// blocks until the counter is zero: other threads run, time passes
+			e.advanceTime(c.st, "0")
+			e.interfereAll(c.st, c.fr)
+			arr2 := e.get(c.st, key, at)
+			e.assume(c.st, fmt.Sprintf("(= (select %s %s) 0)", arr2.S, owner.S))
+			return nil, true
+		case "Load":
+			return []Term{{cur, tInt64}}, true
+		case "Store":
+			e.set(c.st, key, Term{fmt.Sprintf("(store %s %s %s)", arr.S, owner.S, a[0].S), at})
+			return nil, true
+		}
+	case "(*sync/atomic.Value).Store", "(*sync/atomic.Value).Load":
+		owner, fld := e.syncMapOwner(recvExpr, c)
+		a := e.evalArgs(call.Args, c)
+		key := "OV!" + fld
+		at := &Type{K: KGMap, Key: tInt, Elem: tAny}
+		arr := e.get(c.st, key, at)
+		if fn.Name() == "Store" {
+			e.set(c.st, key, Term{fmt.Sprintf("(store %s %s %s)", arr.S, owner.S, e.toAny(a[0], c.st).S), at})
+			return nil, true
+		}
+		return []Term{{fmt.Sprintf("(select %s %s)", arr.S, owner.S), tAny}}, true
 	case "(*sync.Map).Store":
 		owner, fld := e.syncMapOwner(recvExpr, c)
 		a := e.evalArgs(call.Args, c)
@@ -228,6 +277,32 @@ func (e *Exec) timeType(call *ast.CallExpr, c *Ctx) *Type {
 }
 
 // ---------------------------------------------------------------- sync.Map fields
+
+// interfereAll: a blocking operation lets other threads run: monitor-protected state of objects whose lock this thread
+// does not hold is arbitrary afterwards (in concurrent mode); the counters of wait groups likewise.
+func (e *Exec) interfereAll(st *State, fr *Frame) {
+	for k, v := range st.vars {
+		if strings.HasPrefix(k, "OP!") {
+			e.havocKey(st, k, v.T)
+		}
+	}
+	if e.mode != "conc" {
+		return
+	}
+	for _, m := range e.prog.monitors {
+		for _, pf := range m.Protects {
+			if strings.HasPrefix(pf, "smap(") {
+				continue
+			}
+			k := heapKey(m.Struct, pf)
+			for sk, v := range st.vars {
+				if baseName(strings.TrimPrefix(sk, "H!")) == strings.TrimPrefix(k, "H!") || sk == k {
+					e.havocKey(st, sk, v.T)
+				}
+			}
+		}
+	}
+}
 
 func (e *Exec) syncMapOwner(x ast.Expr, c *Ctx) (Term, string) {
 	x = unparen(x)
@@ -345,6 +420,12 @@ func (e *Exec) lock(recvExpr ast.Expr, c *Ctx, call *ast.CallExpr) {
 				continue
 			}
 			f := path[0]
+			if f.Type.K == KOpaque {
+				opk := "OP!" + owner.T.Name + "!" + f.Name
+				at := &Type{K: KGMap, Key: tInt, Elem: tInt}
+				oa := e.get(st, opk, at)
+				e.set(st, opk, Term{fmt.Sprintf("(store %s %s %s)", oa.S, owner.S, e.vc.FreshConst("intf_op", "Int")), at})
+			}
 			ha := e.heapArr(st, owner.T.Name, f)
 			nv := e.vc.FreshConst("intf_"+f.Name, e.Sort(f.Type))
 			e.set(st, heapKey(owner.T.Name, f.Name), Term{fmt.Sprintf("(store %s %s %s)", ha.S, owner.S, nv), ha.T})
@@ -882,6 +963,24 @@ func (e *Exec) contractEffects(ct *Contract, fn *types.Func, sig *types.Signatur
 					}
 				}
 				ef.all = true
+			case id != nil && id.Name == "opall":
+				if se, ok := x.Args[0].(*ast.SelectorExpr); ok {
+					t := e.specType(se.X, sc)
+					ef.heap["OP!"+t.Name+"!"+se.Sel.Name] = &Type{K: KGMap, Key: tInt, Elem: tInt}
+				}
+			case id != nil && id.Name == "ovof":
+				_, fld := e.syncMapOwner(x.Args[0], sc)
+				ef.heap["OV!"+fld] = &Type{K: KGMap, Key: tInt, Elem: tAny}
+			case id != nil && id.Name == "cell":
+				pv := e.eval(x.Args[0], sc)
+				if pv.T.K == KRef && pv.T.Name == "" {
+					ef.heap["P!"+mangle(e.Sort(pv.T.Elem))] = &Type{K: KGMap, Key: tInt, Elem: pv.T.Elem}
+				} else {
+					ef.all = true
+				}
+			case id != nil && id.Name == "opof":
+				_, fld := e.syncMapOwner(x.Args[0], sc)
+				ef.heap["OP!"+fld] = &Type{K: KGMap, Key: tInt, Elem: tInt}
 			case id != nil && id.Name == "smapof":
 				_, fld := e.syncMapOwner(x.Args[0], sc)
 				ef.heap["SM!"+fld+"!dom"] = &Type{K: KGMap, Key: tInt, Elem: &Type{K: KGMap, Key: tAny, Elem: tBool}}
